@@ -377,15 +377,16 @@ Definition xitem_v (x : xitem) : val :=
 (** item line.  input = (-4 pcfg task qpcfg maxlen input target (seed-hi seed-lo) file marks): the closure of
     [train_pipeline(cfg, maxlen)] applied to one (TrainData, TextDataInfo)
     output = (0) a constructor panics | (1 input target tinput rep) | (2 rep) Err | (-777) the call panics | (-5) outside *)
-Definition run_item (v : val) : val :=
+(** [opq] / [unm]: the opaque-stage function used and the test "the preprocessing has a stage [opq] does not model" *)
+Definition run_item_with (opq : nat -> item -> info -> res (item * info)) (unm : pcfg -> bool) (v : val) : val :=
   let p := v_pcfg (v_nth 1 v) in
   let q := v_qpcfg (v_nth 3 v) in
-  if negb (pcfg_dom p) || negb (qpcfg_dom q) || p_has_unmodelled p || qp_has_opaque q then v_outside
+  if negb (pcfg_dom p) || negb (qpcfg_dom q) || unm p || qp_has_opaque q then v_outside
   else match v_task (v_nth 2 v) with
        | None => L [I 0%Z]
        | Some t =>
            if negb (pcfg_ok p) || negb (qpcfg_ok q) then L [I 0%Z]
-           else match pipeline_t opq_std qopq_none p t q (v_nat (v_nth 4 v))
+           else match pipeline_t opq qopq_none p t q (v_nat (v_nth 4 v))
                                  (mk_item (v_str (v_nth 5 v)) (v_str (v_nth 6 v)))
                                  (mk_info (v_hl (v_nth 7 v)) (v_nat (v_nth 8 v)) (v_marks (v_nth 9 v))) with
                 | ROk x => L [I 1%Z; str_v (it_in (x_data x)); str_v (it_tg (x_data x)); tinput_v (x_in x); I 1%Z]
@@ -393,6 +394,8 @@ Definition run_item (v : val) : val :=
                 | RPanic _ => v_panic
                 end
        end.
+
+Definition run_item (v : val) : val := run_item_with opq_std p_has_unmodelled v.
 
 Definition check_item (v o : val) : bool :=
   match o with
